@@ -1,16 +1,19 @@
 ---------------------------- MODULE PathManagerMC ----------------------------
 \* Model instance for PathManager.tla: the concrete keys and the regular-expression ground truth.
-\* R2 and R1 are two overlapping patterns with two and one capture group; AO is all_others.
+\* R1 and R2 are two overlapping patterns with one capture group each; AO is all_others.
 \* (The patterns themselves are in the harness: they cannot be written in a TLA+ comment.)
-\* Resolution order is by configuration name with all_others last: R2 sorts before R1.
+\* Resolution order is by configuration name with all_others last: R1 sorts before R2.
 \* The harness re-derives this table with Go's regexp and refuses to run if it differs.
 EXTENDS PathManager
 
-RegexOrderDef == <<"R2", "R1", "AO">>
+RegexOrderDef == <<"R1", "R2", "AO">>
+\* R1 captures what follows "cam"; R2 swallows an optional "1" first: for the name "cam" both give the
+\* same group, for "cam1" they differ - so two live paths that move together from R1 to R2
+\* disagree on whether they can be kept
 MatchDef == [k \in {"R2", "R1", "AO"} |->
-    CASE k = "R2" -> [n \in {"cam", "cam1", "dog"} |->
-                        CASE n = "cam" -> <<"c", "am">> [] n = "cam1" -> <<"c", "am1">> [] OTHER -> <<"no">>]
-      [] k = "R1" -> [n \in {"cam", "cam1", "dog"} |->
+    CASE k = "R1" -> [n \in {"cam", "cam1", "dog"} |->
                         CASE n = "cam" -> <<"">> [] n = "cam1" -> <<"1">> [] OTHER -> <<"no">>]
+      [] k = "R2" -> [n \in {"cam", "cam1", "dog"} |->
+                        CASE n = "cam" -> <<"">> [] n = "cam1" -> <<"">> [] OTHER -> <<"no">>]
       [] OTHER    -> [n \in {"cam", "cam1", "dog"} |-> <<>>]]
 =============================================================================
